@@ -274,6 +274,7 @@ type storeUnderTest struct {
 	mutKind map[string]bool
 	folds   int
 	lastLay layout.Info
+	ghosts  []store.Store // originals this store was copied from: they live on and keep being written to at the same indexes
 }
 
 func newSUT(kind gen.StoreKind, bud *model.Budget, cl *caseLog) *storeUnderTest {
@@ -422,6 +423,13 @@ func (u *storeUnderTest) apply(op sop) string {
 		}
 		old.Clear()
 		old.Add(u.kindSafeIndex())
+		// the original lives on (see haunt); it is emptied first so that it only ever holds indexes of the cluster
+		// (kindSafeIndex is 0 for an empty model, which can be 2^31 away from the cluster: 16 GB in a dense store)
+		old.Clear()
+		u.ghosts = append(u.ghosts, old)
+		if len(u.ghosts) > 2 {
+			u.ghosts = u.ghosts[1:]
+		}
 	case "vanish":
 		// every weight is scaled down until it underflows to exactly 0: the store then holds nothing a float can
 		// represent and must behave as an empty one (no weight, no bins, no index range, no collapsed state)
@@ -481,6 +489,7 @@ func (u *storeUnderTest) apply(op sop) string {
 	default:
 		panic("apply: " + op.Kind)
 	}
+	u.haunt(op)
 	u.mutKind[op.Kind] = true
 	if u.kind.Collapsing() && u.m.Folded(u.kind.N) {
 		if !wasFolded {
@@ -705,4 +714,33 @@ func (u *storeUnderTest) partialUnderflowProbe() string {
 		}
 	}
 	return msg
+}
+
+// haunt: the stores this one was copied from receive weight at the very indexes it has just been given (weighted, so
+// that a paginated original allocates the same pages): if a copy shares memory with its original - also memory that
+// is merely kept for reuse - one of them overwrites the other and the next comparison with the model shows it.
+func (u *storeUnderTest) haunt(op sop) {
+	if len(u.ghosts) == 0 {
+		return
+	}
+	var idx []int
+	switch op.Kind {
+	case "add", "addw", "addbin":
+		idx = []int{op.Index}
+	case "burst":
+		idx = op.Burst
+		if len(idx) > 8 {
+			idx = idx[:8]
+		}
+	case "clear":
+		for _, g := range u.ghosts {
+			g.Clear()
+		}
+		return
+	}
+	for _, g := range u.ghosts {
+		for _, i := range idx {
+			g.AddWithCount(i, 2.5)
+		}
+	}
 }
